@@ -158,6 +158,11 @@ def extract(repo):
     out["cast_operand"] = mo.group(1) if mo else "?"
     ms = re.search(r'bool is_cast = false;\s*if \(((?:[^{}])*?)\)\s*\{', pbody)
     out["cast_starts"] = sorted(re.findall(r'TokenType::(TOK_\w+)', ms.group(1))) if ms else []
+    # parseUnary: operand callees of the keyword prefix operators await and try / checked
+    ma = re.search(r'check\(TokenType::TOK_AWAIT\)\)\s*\{\s*parser_->advance\(\);\s*ASTNode \*operand = (parse\w+)\(\);', ub)
+    mt2 = re.search(r'check\(TokenType::TOK_TRY\)\s*\|\|\s*parser_->check\(TokenType::TOK_CHECKED\)\)\s*\{\s*Token keyword = parser_->advance\(\);\s*'
+                    r'ASTNode \*operand = (parse\w+)\(\);', ub)
+    out["unary_kw_calls"] = [ma.group(1) if ma else "?", mt2.group(1) if mt2 else "?"]
     # parsePostfix: the tokens its loop continues on, and the tokens of the final ++/--
     fb = funcs.get("parsePostfix", "")
     out["postfix_loop"] = sorted(set(re.findall(r'(?:if|else if) \(parser_->check\(TokenType::(TOK_\w+)\)', fb)))
@@ -209,6 +214,8 @@ def render(info):
         'Definition ladder_cast_operand : string := "%s".' % info.get("cast_operand", "?"),
         'Definition ladder_cast_starts : list string := [%s].' % "; ".join('"%s"' % x for x in info.get("cast_starts", [])),
         'Definition ladder_postfix_tests : list string := [%s].' % "; ".join('"%s"' % x for x in info.get("postfix_loop", [])),
+        "(* parseUnary: operand callee of await, of try / checked *)",
+        'Definition ladder_unary_kw_calls : list string := [%s].' % "; ".join('"%s"' % x for x in info.get("unary_kw_calls", [])),
         "",
     ]
     return "\n".join(lines)
